@@ -309,6 +309,41 @@ def canon(t, closure_body=None, depth=0):
         return "%s(%s)" % (name, ",".join(args))
     if k == "binop":
         op = t[1]
+        if op in ("Sub", "SubWithOverflow"):
+            # a - b - c == a - c - b for unsigned integers, panics included (either order underflows somewhere iff a < b + c):
+            # a chain of subtractions from one base is rendered with its subtrahends sorted
+            base, subs = t[2], [t[3]]
+            while True:
+                x = base
+                while isinstance(x, tuple) and x and x[0] in ("site",):
+                    x = x[1]
+                if isinstance(x, tuple) and x and x[0] == "field" and x[2] in (0, "0") and isinstance(x[1], tuple) and x[1][:2] == ("binop", op) and op == "SubWithOverflow":
+                    base, subs = x[1][2], subs + [x[1][3]]
+                elif isinstance(x, tuple) and x and x[:2] == ("binop", op) and op == "Sub":
+                    base, subs = x[2], subs + [x[3]]
+                else:
+                    break
+            if len(subs) > 1:
+                # constants among base and subtrahends are folded when that cannot change the panic behaviour (the constant
+                # part alone does not underflow): BITS - lz - 1 == (BITS - 1) - lz == 63 - lz
+                cb = c(base)
+                cs = [c(x) for x in subs]
+                mb = re.fullmatch(r"(\d+)_([ui]\d+|usize|isize)", cb)
+                if mb:
+                    ksum = 0
+                    rest = []
+                    for x in cs:
+                        mx = re.fullmatch(r"(\d+)_([ui]\d+|usize|isize)", x)
+                        if mx and mx.group(2) == mb.group(2):
+                            ksum += int(mx.group(1))
+                        else:
+                            rest.append(x)
+                    if ksum and int(mb.group(1)) >= ksum:
+                        cb = "%d_%s" % (int(mb.group(1)) - ksum, mb.group(2))
+                        cs = rest
+                if len(cs) == 1:
+                    return "%s(%s,%s)" % (op, cb, cs[0])
+                return "%s(%s;%s)" % (op, cb, ",".join(sorted(cs)))
         a, b = c(t[2]), c(t[3])
         if op in FLIP:
             op, a, b = FLIP[op], b, a
